@@ -187,6 +187,40 @@ class Check:
                                      'events': t['ev'][:40]})
         return verdicts
 
+    def validate_groups(self, name, trace_module, groups, *, sig_of=None, jobs=8, timeout=900):
+        """Several (cfg, traces) groups (different constants) validated concurrently; one summary leg."""
+        from concurrent.futures import ThreadPoolExecutor
+        groups = [(c, t) for c, t in groups if t]
+        if not groups:
+            return
+        before = len(self.legs)
+        sub = []
+
+        def one(g):
+            c = Check(self.pid, self.tier, self.seed)
+            c.findings = self.findings
+            c.validate(name, trace_module, g[0], g[1], sig_of=sig_of, timeout=timeout)
+            return c
+
+        with ThreadPoolExecutor(max_workers=jobs) as ex:
+            sub = list(ex.map(one, groups))
+        tr = rej = dist = gen = 0
+        for c in sub:
+            self.violations.extend(c.violations)
+            self.known_hits.extend(c.known_hits)
+            self.traces += c.traces
+            self.states += c.states
+            self.transitions += c.transitions
+            for lg in c.legs:
+                tr += lg.get('traces', 0)
+                rej += lg.get('rejected', 0)
+                dist += lg.get('distinct', 0)
+                gen += lg.get('generated', 0)
+            for smp in c.samples:
+                self.sample(smp)
+        self.legs.append({'leg': 'L3', 'name': name, 'groups': len(groups), 'traces': tr, 'rejected': rej,
+                          'distinct': dist, 'generated': gen})
+
     # ---- verdicts ------------------------------------------------------------------------------------------
     def violation(self, detail, sig):
         for f in self.findings:
